@@ -182,7 +182,12 @@ func runVal(r *rand.Rand, o *hout.Out) {
 		emit("time", txt)
 		// time: damaged renderings
 		tm := append([]byte{}, txt...)
-		switch r.Intn(8) {
+		switch r.Intn(9) {
+		case 8: // a sign where the first fraction digit should be: Go's atoi accepts it, a negative value is out of range
+			tm[18] = "+-"[r.Intn(2)]
+			if r.Intn(2) == 0 {
+				tm[19], tm[20] = '0', '0'
+			}
 		case 0:
 			tm[17] = ','
 		case 1:
